@@ -386,7 +386,15 @@ class ProvRecord(object):
             if value is not None:
                 return value
 
-        # No conversion possible, return the original value
+        # No conversion possible
+        if isinstance(literal, Literal) and isinstance(
+            literal.datatype, QualifiedName
+        ):
+            # make sure the namespace of the datatype is known to the bundle,
+            # otherwise serialisers print a prefix nobody declares
+            datatype = self._bundle.valid_qualified_name(literal.datatype)
+            if datatype is not literal.datatype:
+                literal = Literal(literal.value, datatype, literal.langtag)
         return literal
 
     def add_attributes(self, attributes):
